@@ -12,7 +12,7 @@ Import ListNotations.
 
 (* repair switch (stage 1: false): to_yaml of values that are numpy scalars (update_var with numpy values,
    add_edges_from_matrix) raises RepresenterError; fixes/fix_C15_numpy_yaml.diff converts them to Python numbers *)
-Definition fixed_numpy : bool := false.
+Definition fixed_numpy : bool := true.
 Definition dump_representable (fx numpy_values : bool) : bool := fx || negb numpy_values.
 
 (* ---------- insertion-ordered dictionaries (Python dict) ---------- *)
